@@ -515,9 +515,9 @@ with the wrong "after" order).  Then for the rule written with `reindex=False`,
 * every atom of `I'` gets as many of them as its `hcount` says;
 * (both values of `reindex`) the `left` and `right` sections are those of the default export.
 
-Missing: the re-import for `reindex=True` (there the new hydrogens keep their ids while the atoms
-of `I'` are renumbered `1..n`; the harness undoes the renumbering and gates the same predicate,
-and additionally requires ids ≥ 1 so that the two id ranges cannot collide). -/
+Missing here: the re-import for `reindex=True` — proved in `itsToGmlX_roundtrip_reindex`; the two
+together are `itsToGmlX_roundtrip` (the writer renumbers the atoms `1..n` first and expands the
+renumbered graph, so that case is this theorem for the renumbered ITS). -/
 theorem itsToGmlX_roundtrip_partial (I : LGraph) (core : Bool) (hs : ItsShape (if core then getRc I else I))
     (hc : StdConsistent (if core then getRc I else I)) :
     (∀ n, n ∈ (gmlToIts (itsToGmlX core false true I)).ids ↔
@@ -602,21 +602,23 @@ example :
 /-- **C10, ITS → GML (`explicit_hydrogen=True`) → ITS: the statement**, for both values of `reindex`.
 `I'` is the exported graph (the centre for `core=True`), `f = renum ri I'` the renumbering the writer
 applies to its atoms (`reindex=False`: none; `reindex=True`: `indexMap (side 0 I')`, position in the
-node list + 1 — the map of `itsToGml_reindex` / `gml_roundtrip_reindexed`), `addedH I'` the
-(new id, parent) pairs `h_to_explicit` creates — the new hydrogens are *not* renumbered.  For the
-rule written with `explicit_hydrogen=True` and read back by `gml_to_its`:
+node list + 1 — the map of `itsToGml_reindex` / `gml_roundtrip_reindexed`), `J = renumG ri I'` the
+renumbered graph (`I'` itself for `reindex=False`) and `addedH J` the (new id, parent) pairs
+`h_to_explicit` creates on it — the writer renumbers first and expands afterwards, so the new
+hydrogens are numbered from the largest renumbered id + 1 and their parents are renumbered atoms.
+For the rule written with `explicit_hydrogen=True` and read back by `gml_to_its`:
 * its atoms are the renumbered atoms of `I'` and the new hydrogens;
 * on the renumbered atoms it is `I'` — same (element, charge) before/after, same (before, after)
   order pair on every pair of atoms — and it is what the default round trip with the same `reindex`
   gives there;
-* every new hydrogen is not one of the renumbered atoms, is `H`/0 on both sides, hangs on the
-  (renumbered) parent by a (1, 1) bond and has no other bond;
-* every atom of `I'` gets `hcount` of them;
+* every new hydrogen is not one of the renumbered atoms, is `H`/0 on both sides, hangs on its parent
+  (a renumbered atom) by a (1, 1) bond and has no other bond;
+* every atom `v` of `I'` gets `hcount` of them (on `f v`);
 * the `left` / `right` sections are those of the default export. -/
 def ItsToGmlXRoundtrip (core ri : Bool) (I : LGraph) : Prop :=
   (∀ n, n ∈ (gmlToIts (itsToGmlX core ri true I)).ids ↔
     n ∈ (if core then getRc I else I).ids.map (renum ri (if core then getRc I else I)) ∨
-    ∃ q ∈ addedH (if core then getRc I else I), n = q.1) ∧
+    ∃ q ∈ addedH (renumG ri (if core then getRc I else I)), n = q.1) ∧
   (∀ n ∈ (if core then getRc I else I).ids,
     nodeView (gmlToIts (itsToGmlX core ri true I)) (renum ri (if core then getRc I else I) n) =
       nodeView (if core then getRc I else I) n ∧
@@ -629,76 +631,58 @@ def ItsToGmlXRoundtrip (core ri : Bool) (I : LGraph) : Prop :=
         (renum ri (if core then getRc I else I) v) =
       edgeView (gmlToIts (itsToGml core ri I)) (renum ri (if core then getRc I else I) u)
         (renum ri (if core then getRc I else I) v)) ∧
-  (∀ q ∈ addedH (if core then getRc I else I),
+  (∀ q ∈ addedH (renumG ri (if core then getRc I else I)),
     q.1 ∉ (if core then getRc I else I).ids.map (renum ri (if core then getRc I else I)) ∧
-    q.2 ∈ (if core then getRc I else I).ids ∧
+    q.2 ∈ (if core then getRc I else I).ids.map (renum ri (if core then getRc I else I)) ∧
     nodeView (gmlToIts (itsToGmlX core ri true I)) q.1 = .tup [.str "H", .num 0, .str "H", .num 0] ∧
-    edgeView (gmlToIts (itsToGmlX core ri true I)) (renum ri (if core then getRc I else I) q.2) q.1 =
-      some (.tup [.num 2, .num 2]) ∧
-    ∀ u, u ≠ renum ri (if core then getRc I else I) q.2 →
-      edgeView (gmlToIts (itsToGmlX core ri true I)) u q.1 = none) ∧
+    edgeView (gmlToIts (itsToGmlX core ri true I)) q.2 q.1 = some (.tup [.num 2, .num 2]) ∧
+    ∀ u, u ≠ q.2 → edgeView (gmlToIts (itsToGmlX core ri true I)) u q.1 = none) ∧
   (∀ v ∈ (if core then getRc I else I).ids,
-    ((addedH (if core then getRc I else I)).map (·.2)).count v = (hcnt ((if core then getRc I else I).attrs v)).toNat) ∧
+    ((addedH (renumG ri (if core then getRc I else I))).map (·.2)).count (renum ri (if core then getRc I else I) v) =
+      (hcnt ((if core then getRc I else I).attrs v)).toNat) ∧
   ((itsToGmlX core ri true I).left = (itsToGml core ri I).left ∧
     (itsToGmlX core ri true I).right = (itsToGml core ri I).right)
 
 /-- **C10, ITS → GML (`explicit_hydrogen=True`, `reindex=True`) → ITS** — the gap named in
-`itsToGmlX_roundtrip_partial`.  With `reindex=True` the atoms of `I'` are renumbered `1..n` while
-the new hydrogens keep the ids `h_to_explicit` gave them (counted from the *original* largest id),
-so the two id ranges must not meet: `FreshAbove I'` — every new hydrogen id is above `n`.  This
-holds whenever all ids are ≥ 1 (`freshAbove_of_ids_pos`), fails exactly when the atoms are numbered
-`0..n-1` and a hydrogen is added (counterexample below), and is necessary
-(`itsToGmlX_roundtrip_reindex_iff`).  Under it the re-imported rule satisfies `ItsToGmlXRoundtrip`
-with `ri = true`: the statement of the partial theorem read through the renumbering
-`indexMap (side 0 I')`. -/
+`itsToGmlX_roundtrip_partial`, with no id condition.  With `reindex=True` the writer renumbers the
+atoms of `I'` `1..n` and then lets `h_to_explicit` expand the renumbered context graph, so the rule
+is the `reindex=False` export of the renumbered ITS (`itsToGmlX_reindex`) and the new hydrogens get
+the ids `n+1, …`: the two id ranges cannot meet.  The re-imported rule satisfies
+`ItsToGmlXRoundtrip` with `ri = true`: the statement of the partial theorem for the renumbered graph,
+read through the renumbering `indexMap (side 0 I')`.  (Before the repair of F44 the hydrogens were
+added first, numbered from the original largest id, and the statement needed every new id to lie
+above `n`; the input with atom ids 0, 1 below was the counterexample.) -/
 theorem itsToGmlX_roundtrip_reindex (I : LGraph) (core : Bool) (hs : ItsShape (if core then getRc I else I))
-    (hc : StdConsistent (if core then getRc I else I)) (hfa : FreshAbove (if core then getRc I else I)) :
+    (hc : StdConsistent (if core then getRc I else I)) :
     ItsToGmlXRoundtrip core true I := by
   cases core with
   | false =>
-    obtain ⟨a, b, c, d, e⟩ := roundtripX_reindex I hs hc hfa
+    obtain ⟨a, b, c, d, e⟩ := roundtripX_reindex I hs hc
     exact ⟨a, b, c, d, e, itsToGmlX_sides false true I⟩
   | true =>
-    obtain ⟨a, b, c, d, e⟩ := roundtripX_reindex (getRc I) hs hc hfa
+    obtain ⟨a, b, c, d, e⟩ := roundtripX_reindex (getRc I) hs hc
     exact ⟨a, b, c, d, e, itsToGmlX_sides true true I⟩
 
 /-- **C10, ITS → GML (`explicit_hydrogen=True`) → ITS, both values of `reindex`** (sixth and seventh
 clause of `C10.FullStatement` for the explicit-hydrogen export): `itsToGmlX_roundtrip_partial`
-(`reindex=False`, no extra hypothesis) and `itsToGmlX_roundtrip_reindex` (`reindex=True`, new
-hydrogen ids above the number of atoms) in one statement. -/
+(`reindex=False`) and `itsToGmlX_roundtrip_reindex` (`reindex=True`) in one statement, under the
+shape hypotheses only. -/
 theorem itsToGmlX_roundtrip (I : LGraph) (core ri : Bool) (hs : ItsShape (if core then getRc I else I))
-    (hc : StdConsistent (if core then getRc I else I))
-    (hfa : ri = true → FreshAbove (if core then getRc I else I)) :
+    (hc : StdConsistent (if core then getRc I else I)) :
     ItsToGmlXRoundtrip core ri I := by
   cases ri with
-  | true => exact itsToGmlX_roundtrip_reindex I core hs hc (hfa rfl)
+  | true => exact itsToGmlX_roundtrip_reindex I core hs hc
   | false =>
     obtain ⟨a, b, c, d, e, g⟩ := itsToGmlX_roundtrip_partial I core hs hc
     unfold ItsToGmlXRoundtrip
-    simp only [renum_false, List.map_id, id_eq]
+    simp only [renum_false, renumG_false, List.map_id, id_eq]
     exact ⟨a, b, c, d, e, g false⟩
-
-/-- **`FreshAbove` is the exact condition** for the `reindex=True` statement: under the shape
-hypotheses, `ItsToGmlXRoundtrip core true I` holds iff every new hydrogen id is above the number
-of atoms of `I'`. -/
-theorem itsToGmlX_roundtrip_reindex_iff (I : LGraph) (core : Bool) (hs : ItsShape (if core then getRc I else I))
-    (hc : StdConsistent (if core then getRc I else I)) :
-    ItsToGmlXRoundtrip core true I ↔ FreshAbove (if core then getRc I else I) := by
-  constructor
-  · intro h
-    exact freshAbove_of_not_mem _ hs (fun q hq => (h.2.2.2.1 q hq).1)
-  · exact itsToGmlX_roundtrip_reindex I core hs hc
-
-/-- Ids ≥ 1 — what `rsmi_to_graph` / `ITSConstruction` / `get_rc` deliver, and what the harness
-requires of its inputs — are enough for `FreshAbove`. -/
-theorem freshAbove_of_ids_pos (I : LGraph) (hn : I.ids.Nodup) (hpos : ∀ n ∈ I.ids, 1 ≤ n) : FreshAbove I :=
-  freshAbove_of_pos I hn hpos
 
 /-- Non-vacuity for `itsToGmlX_roundtrip_reindex` / `itsToGmlX_roundtrip` with `reindex = true`: atoms
 5, 9, 12 (not `1..n`; C–O bond formed, O loses its charge, an unchanged O–N bond), three hydrogens
-on atom 5, one on atom 9.  The hypotheses hold; the hydrogens get ids 13..16 (counted from 12) and
-keep them, the atoms become 1, 2, 3; the re-imported rule has the seven atoms, the changed bond
-between the renumbered atoms and the hydrogen bonds on the renumbered parents. -/
+on atom 5, one on atom 9.  The hypotheses hold; the atoms become 1, 2, 3 and the hydrogens get the
+ids 4..7 (counted from 3), hanging on the renumbered parents 1 and 2; the re-imported rule has the
+seven atoms, the changed bond between the renumbered atoms and the hydrogen bonds. -/
 example :
     let I : LGraph :=
       { nodes := [(5, [("element", .str "C"), ("charge", .num 0), ("hcount", .num 6),
@@ -712,24 +696,24 @@ example :
                                          .tup [.str "N", .bool false, .num 0, .num 0, .tup []]])])],
         edges := [(5, 9, [("order", .tup [.num 0, .num 2]), ("standard_order", .num (-2))]),
                   (9, 12, [("order", .tup [.num 2, .num 2]), ("standard_order", .num 0)])] }
-    ItsShape I ∧ StdConsistent I ∧ FreshAbove I ∧ addedH I = [(13, 5), (14, 5), (15, 5), (16, 9)] ∧
+    ItsShape I ∧ StdConsistent I ∧ addedH (renumG true I) = [(4, 1), (5, 1), (6, 1), (7, 2)] ∧
     I.ids.map (renum true I) = [1, 2, 3] ∧
     (itsToGmlX false true true I).context =
-      [.node 1 ['C'], .node 3 ['N'], .node 13 ['H'], .node 14 ['H'], .node 15 ['H'], .node 16 ['H'],
-       .edge 2 3 ['-'], .edge 1 13 ['-'], .edge 1 14 ['-'], .edge 1 15 ['-'], .edge 2 16 ['-']] ∧
-    (gmlToIts (itsToGmlX false true true I)).ids = [2, 3, 1, 13, 14, 15, 16] ∧
+      [.node 1 ['C'], .node 3 ['N'], .node 4 ['H'], .node 5 ['H'], .node 6 ['H'], .node 7 ['H'],
+       .edge 2 3 ['-'], .edge 1 4 ['-'], .edge 1 5 ['-'], .edge 1 6 ['-'], .edge 2 7 ['-']] ∧
+    (gmlToIts (itsToGmlX false true true I)).ids = [2, 3, 1, 4, 5, 6, 7] ∧
     edgeView (gmlToIts (itsToGmlX false true true I)) 1 2 = some (.tup [.num 0, .num 2]) ∧
     edgeView (gmlToIts (itsToGmlX false true true I)) 2 3 = some (.tup [.num 2, .num 2]) ∧
-    edgeView (gmlToIts (itsToGmlX false true true I)) 2 16 = some (.tup [.num 2, .num 2]) := by
+    edgeView (gmlToIts (itsToGmlX false true true I)) 2 7 = some (.tup [.num 2, .num 2]) := by
   decide
 
-/-- `FreshAbove` cannot be dropped (id collision): the two-atom centre numbered 0, 1 with one hydrogen
-on each atom.  `h_to_explicit` gives the hydrogens the ids 2, 3; `reindex=True` renumbers the atoms
-0 ↦ 1, 1 ↦ 2, so hydrogen 2 and the oxygen share an id.  The writer then treats hydrogen 2 as the
-changed atom 2 (it is left out of the context section) and writes its bond to atom 1 as a context
-edge `1 2`: the re-imported rule has three atoms instead of four, its atom 2 is the oxygen, and the
-C–O bond that is *formed*, (0, 1), comes back as an unchanged single bond (1, 1) — whereas the
-default export with `reindex=True` of the same graph reads back correctly. -/
+/-- The former counterexample (F44) now round-trips: the two-atom centre numbered 0, 1 with one
+hydrogen on each atom.  `reindex=True` renumbers the atoms 0 ↦ 1, 1 ↦ 2 and `h_to_explicit` then gives
+the hydrogens the ids 3, 4 (before the repair: 2, 3, computed from the original ids, so hydrogen 2
+and the renumbered oxygen shared an id and the re-imported rule had three atoms and an unchanged
+C–O bond).  The re-imported rule has the four atoms, atom 2 is the oxygen, the C–O bond that is
+*formed*, (0, 1), comes back as such — as in the default export with `reindex=True` — and each
+hydrogen hangs on its parent. -/
 example :
     let I : LGraph :=
       { nodes := [(0, [("element", .str "C"), ("charge", .num 0), ("hcount", .num 2),
@@ -739,19 +723,17 @@ example :
                        ("typesGH", .tup [.tup [.str "O", .bool false, .num 2, .num (-2), .tup []],
                                          .tup [.str "O", .bool false, .num 2, .num 0, .tup []]])])],
         edges := [(0, 1, [("order", .tup [.num 0, .num 2]), ("standard_order", .num (-2))])] }
-    ItsShape I ∧ StdConsistent I ∧ ¬ FreshAbove I ∧ addedH I = [(2, 0), (3, 1)] ∧
+    ItsShape I ∧ StdConsistent I ∧ addedH I = [(2, 0), (3, 1)] ∧ addedH (renumG true I) = [(3, 1), (4, 2)] ∧
     I.ids.map (renum true I) = [1, 2] ∧
-    (gmlToIts (itsToGmlX false true true I)).ids = [2, 1, 3] ∧
+    (gmlToIts (itsToGmlX false true true I)).ids = [2, 1, 3, 4] ∧
     nodeView (gmlToIts (itsToGmlX false true true I)) 2 = .tup [.str "O", .num (-2), .str "O", .num 0] ∧
-    (itsToGmlX false true true I).context = [.node 1 ['C'], .node 3 ['H'], .edge 1 2 ['-'], .edge 2 3 ['-']] ∧
+    (itsToGmlX false true true I).context = [.node 1 ['C'], .node 3 ['H'], .node 4 ['H'], .edge 1 3 ['-'], .edge 2 4 ['-']] ∧
     edgeView I 0 1 = some (.tup [.num 0, .num 2]) ∧
     edgeView (gmlToIts (itsToGml false true I)) 1 2 = some (.tup [.num 0, .num 2]) ∧
-    edgeView (gmlToIts (itsToGmlX false true true I)) 1 2 = some (.tup [.num 2, .num 2]) ∧
-    ¬ ItsToGmlXRoundtrip false true I := by
-  refine ⟨by decide, by decide, by decide, by decide, by decide, by decide, by decide, by decide, by decide,
-    by decide, by decide, ?_⟩
-  intro h
-  exact absurd (h.2.2.2.1 (2, 0) (by decide)).1 (by decide)
+    edgeView (gmlToIts (itsToGmlX false true true I)) 1 2 = some (.tup [.num 0, .num 2]) ∧
+    edgeView (gmlToIts (itsToGmlX false true true I)) 1 3 = some (.tup [.num 2, .num 2]) ∧
+    edgeView (gmlToIts (itsToGmlX false true true I)) 2 4 = some (.tup [.num 2, .num 2]) := by
+  decide
 
 end ReprOpt
 
